@@ -1,4 +1,5 @@
 import Resolvo.MDet.Checked
+import Resolvo.MDet.LogSpec
 /-!
 # C12 — cancellation is honoured promptly and faithfully
 
@@ -41,5 +42,77 @@ theorem no_cands_request_after_signal (U : Universe) (n : Nat) (s : S) (hun : s.
   simp only [bind, ExceptT.bind, ExceptT.mk, ExceptT.bindCont, get, getThe, MonadStateOf.get, liftM, monadLift,
     MonadLift.monadLift, ExceptT.lift, StateT.bind, StateT.get, StateT.map, Functor.map, pure, StateT.pure, hun,
     Bool.not_false, if_true, poll_fires s h]
+
+/-! ## Run level: the whole of `solve`
+
+`S.glog` is the structured twin of the provider call log (the driver checks on every case that it renders to the
+call log, which in turn equals the real solver's log entry by entry): `poll k fired` = the k-th call of
+`should_cancel_with_value` and whether it returned a value, `call` = a `get_candidates` / `get_dependencies`
+request is started, `got` = its answer was obtained. The theorems hold for every universe, problem, fuel and
+solver state — any cancellation plan, warm or cold cache, synchronous provider or asynchronous provider under
+any completion order (`MDet/LogSpec.lean`: the discipline composes over sequencing, loops and early exits). -/
+
+/-- **Faithful, and nothing afterwards.** If `solve` ends `Cancelled v`, the newest entry of the call log is a poll
+    that returned a value, `v` is the value of that very poll, and no other poll of this solve returned one: no
+    provider request is started — indeed nothing at all is logged — after cancellation was observed. -/
+theorem cancelled_faithful (U : Universe) (P : Problem) (fuel : Nat) (s : S) (v : Nat)
+    (h : (solveRun U P fuel s).1 = .stop (.cancelled v)) :
+    ∃ k rest, (solveRun U P fuel s).2.glog = .poll k true :: rest ++ s.glog ∧ v = 7000 + k ∧ NoFired rest := by
+  obtain ⟨new, hg, _, hc⟩ := solveRun_chunk U P fuel s
+  rw [h] at hc
+  obtain ⟨k, rest, hnew, hv, hnf⟩ := hc
+  exact ⟨k, rest, by rw [hg, hnew], hv, hnf⟩
+
+/-- **Never a solution or a conflict instead.** If any poll of this solve returned a value, the solve ends `Cancelled`. -/
+theorem fired_poll_cancels (U : Universe) (P : Problem) (fuel : Nat) (s : S) (new : List GEv)
+    (hg : (solveRun U P fuel s).2.glog = new ++ s.glog) (k : Nat) (hk : GEv.poll k true ∈ new) :
+    (solveRun U P fuel s).1 = .stop (.cancelled (7000 + k)) := by
+  obtain ⟨new', hg', _, hc⟩ := solveRun_chunk U P fuel s
+  have hnn : new = new' := by
+    have : new ++ s.glog = new' ++ s.glog := by rw [← hg, ← hg']
+    exact List.append_cancel_right this
+  subst hnn
+  cases ho : (solveRun U P fuel s).1 with
+  | ok sol => rw [ho] at hc; exact absurd hk (hc k)
+  | unsat c => rw [ho] at hc; exact absurd hk (hc k)
+  | stop w =>
+    rw [ho] at hc
+    cases w with
+    | panic site => exact absurd hk (hc k)
+    | outOfFuel => exact absurd hk (hc k)
+    | cancelled v =>
+      obtain ⟨k', rest, hnew, hv, hnf⟩ := hc
+      rw [hnew] at hk
+      rcases List.mem_cons.mp hk with h1 | h1
+      · cases h1; rw [hv]
+      · exact absurd h1 (hnf k)
+
+/-- **Promptly.** Every provider request a solve starts is directly preceded by a poll of
+    `should_cancel_with_value` that returned nothing: there is no request without a fresh look at the signal. -/
+theorem every_request_polled (U : Universe) (P : Problem) (fuel : Nat) (s : S) :
+    ∃ new, (solveRun U P fuel s).2.glog = new ++ s.glog ∧ CallsPolled new := by
+  obtain ⟨new, hg, hp, _⟩ := solveRun_chunk U P fuel s
+  exact ⟨new, hg, hp⟩
+
+/-- the same across any history of solves on one solver (C13's quantifier) -/
+theorem history_requests_polled (U : Universe) (fuel : Nat) (ps : List Problem) (s : S) :
+    ∃ new, (ps.foldl (fun st p => (solveRun U p fuel st).2) s).glog = new ++ s.glog ∧ CallsPolled new := by
+  induction ps generalizing s with
+  | nil => exact ⟨[], rfl, trivial⟩
+  | cons p ps ih =>
+    obtain ⟨n1, h1, c1⟩ := every_request_polled U p fuel s
+    obtain ⟨n2, h2, c2⟩ := ih (solveRun U p fuel s).2
+    refine ⟨n2 ++ n1, ?_, callsPolled_append _ _ c2 c1⟩
+    simp only [List.foldl_cons]
+    rw [h2, h1, List.append_assoc]
+
+/-! Non-vacuity of the `Cancelled` branch: every propagation round started while the signal is up ends `Cancelled`
+    with the provider's value (so does every uncached request, `no_*_request_after_signal` above); the evidence file
+    counts the generated cases that actually ended `Cancelled` with model and implementation in exact agreement. -/
+example (level fuel : Nat) (s : S) (h : fires s = true) :
+    (runM (propagate level fuel) s).1 = .error (.cancelled (7000 + s.polls)) := by
+  unfold propagate
+  rw [runM_bind, runM_pollCancel]
+  simp [h]
 
 end Resolvo.C12
